@@ -7,7 +7,7 @@ def main():
     aid, wt, out, area = sys.argv[1:5]
     print(f"""You are helping to evaluate a verification effort for the Rust crate tokio-rs/bytes (v1.10.1 plus a few bug fixes). Your job: write three strictly BEHAVIOUR-PRESERVING refactorings of the crate - the kind of tidy-up, restructuring or modernisation PR a maintainer would merge - so that we can check that our analysers do not raise false alarms on harmless edits.
 
-Your private scratch git worktree of the crate is {wt} (work only there; never touch /repo or /verif, and do not read anything under /verif). The sandbox has no network: always use `CARGO_NET_OFFLINE=true cargo ... --offline`. The test suite: `cd {wt} && CARGO_NET_OFFLINE=true cargo test --workspace --no-fail-fast --offline`.
+Your private scratch git worktree of the crate is {wt} (work only there; never use `git stash` - the stash is shared between all worktrees of the repository, save diffs to files instead; never touch /repo or /verif, and do not read anything under /verif). The sandbox has no network: always use `CARGO_NET_OFFLINE=true cargo ... --offline`. The test suite: `cd {wt} && CARGO_NET_OFFLINE=true cargo test --workspace --no-fail-fast --offline`.
 
 AREA TO WORK IN: {area}
 
